@@ -93,7 +93,9 @@ Proof.
       intro Hnil.
       assert (Hm' : ps_wf mine) by (eapply Hwf; eassumption).
       assert (Ho' : ps_wf ops) by (eapply Hwfo; eassumption).
-      unfold ps_containedin, isubset in Hci. unfold ps_subtract in Hnil. simpl in Hnil.
+      assert (Hmn : ps_numeric mine) by (eapply Hnum; eassumption).
+      rewrite (ps_containedin_numeric mine ops (proj1 Hmn)) in Hci.
+      unfold isubset in Hci. unfold ps_subtract in Hnil. simpl in Hnil.
       rewrite Hnil in Hci. simpl in Hci. discriminate.
     + injection Hg as <-. eapply Hne; eassumption.
 Qed.
